@@ -204,6 +204,86 @@ func c38RefOptions(s []byte) (opts []string, end int, balanced bool) {
 	return opts, i, !quoted
 }
 
+// c38LineOracle decides, for a line "<s> ssh-ed25519 <blob> ...", whether sshd reads it as
+// [options] type blob, and which options it carries: strip leading blanks; the option field must
+// be a single blank-free (outside quotes) word with balanced quotes directly followed by the key
+// type; a leading '#' makes it a comment.
+func c38LineOracle(s []byte) (want bool, wantOpts []string) {
+	t := s
+	for len(t) > 0 && (t[0] == ' ' || t[0] == '\t') {
+		t = t[1:]
+	}
+	full := append(append([]byte(nil), t...), []byte(" ssh-ed25519 ")...)
+	if len(t) == 0 {
+		return true, nil
+	}
+	if t[0] == '#' {
+		return false, nil
+	}
+	opts, end, bal := c38RefOptions(full)
+	// the field must end exactly where the symbolic part ends, or inside its trailing blanks
+	onlyBlanks := true
+	for j := end; j < len(t); j++ {
+		if t[j] != ' ' && t[j] != '\t' {
+			onlyBlanks = false
+		}
+	}
+	if bal && end <= len(t) && onlyBlanks {
+		return true, opts
+	}
+	return false, nil
+}
+
+// Verif_C38_AuthorizedKeysMultiLine: ParseAuthorizedKey on a file whose key line is preceded by
+// lines that are IGNORED: "<c>a,= notakey zz" (c = one symbolic byte of the quoting alphabet:
+// option-like tokens in front of something that is not a key), in four variants (LF; CRLF; LF
+// plus a comment line; CRLF plus a blank line), then "<S2> ssh-ed25519 <blob> c d" (S2 = 0..2
+// symbolic bytes over the alphabet), the same line end, "rest". A key is returned iff the key line alone is
+// [options] type blob as sshd reads it; the returned options are exactly that line's own split
+// (nothing from the ignored lines), comment "c d", rest "rest". No panic.
+func Verif_C38_AuthorizedKeysMultiLine() {
+	c40On = true // this author's engine stubs (see zz_verif_stubs.go)
+	alpha := [8]byte{' ', '\t', '"', '\\', ',', '#', 'a', '='}
+	s1 := []byte{alpha[verifrt.U8()&7], 'a', ',', '='}
+	n2 := verifrt.Choose(0, 2)
+	s2 := make([]byte, n2)
+	for i := range s2 {
+		s2[i] = alpha[verifrt.U8()&7]
+	}
+	variant := verifrt.Choose(0, 3)
+	eol := []string{"\n", "\r\n", "\n", "\r\n"}[variant]
+	between := []string{"", "", "# a,b c\n", " \t\r\n"}[variant]
+	file := append([]byte(nil), s1...)
+	file = append(file, []byte(" notakey zz"+eol+between)...)
+	file = append(file, s2...)
+	file = append(file, []byte(" ssh-ed25519 "+c38KeyB64+" c d"+eol+"rest")...)
+	var out PublicKey
+	var comment string
+	var options []string
+	var rest []byte
+	var err error
+	panicked := verifrt.Panics(func() { out, comment, options, rest, err = ParseAuthorizedKey(file) })
+	verifrt.Assert(!panicked, "ParseAuthorizedKey does not panic (multi-line)")
+	want, wantOpts := c38LineOracle(s2)
+	verifrt.Assert((err == nil) == want, "multi-line: a key is returned iff the key line is options, key type, blob as sshd reads it")
+	if err != nil {
+		verifrt.Reach("ml-rejected")
+		return
+	}
+	verifrt.Reach("ml-accepted")
+	verifrt.Assert(out.Type() == KeyAlgoED25519 && string(out.Marshal()) == string(c38KeyBlob()), "multi-line: the key of the key line")
+	verifrt.Assert(comment == "c d" && string(rest) == "rest", "multi-line: comment and rest of the key line")
+	verifrt.Assert(len(options) == len(wantOpts), "multi-line: options are those of the accepted line only (number)")
+	if len(options) == len(wantOpts) {
+		for i := range options {
+			verifrt.Assert(options[i] == wantOpts[i], "multi-line: options are those of the accepted line only")
+		}
+	}
+	if len(wantOpts) > 0 {
+		verifrt.Reach("ml-options")
+	}
+}
+
 func c38AuthorizedKeyOptions(maxN int) {
 	n := verifrt.Choose(0, maxN)
 	alpha := [8]byte{' ', '\t', '"', '\\', ',', '#', 'a', '='}
@@ -220,31 +300,7 @@ func c38AuthorizedKeyOptions(maxN int) {
 	panicked := verifrt.Panics(func() { out, comment, options, rest, err = ParseAuthorizedKey(line) })
 	verifrt.Assert(!panicked, "ParseAuthorizedKey does not panic")
 
-	// oracle: strip leading blanks; the option field must be a single blank-free (outside
-	// quotes) word with balanced quotes directly followed by the key type
-	t := s
-	for len(t) > 0 && (t[0] == ' ' || t[0] == '\t') {
-		t = t[1:]
-	}
-	full := append(append([]byte(nil), t...), []byte(" ssh-ed25519 ")...)
-	want := false
-	var wantOpts []string
-	if len(t) == 0 {
-		want = true
-	} else if t[0] != '#' {
-		opts, end, bal := c38RefOptions(full)
-		// the field must end exactly where the symbolic part ends, or inside its trailing blanks
-		onlyBlanks := true
-		for j := end; j < len(t); j++ {
-			if t[j] != ' ' && t[j] != '\t' {
-				onlyBlanks = false
-			}
-		}
-		if bal && end <= len(t) && onlyBlanks {
-			want = true
-			wantOpts = opts
-		}
-	}
+	want, wantOpts := c38LineOracle(s)
 	verifrt.Assert((err == nil) == want, "a key is returned iff the line is options, key type, blob as sshd reads it")
 	if err != nil {
 		verifrt.Assert(out == nil, "no key with an error")
